@@ -456,7 +456,10 @@ pub fn exec(lineno: usize, l: &str) -> String {
                 push_opt(o, guard(|| h.hand_rank_validated().value));
             }
             match n {
-                5 => vals(&Five::from(a5(&v[1..])), &mut o),
+                5 => {
+                    vals(&Five::from(a5(&v[1..])), &mut o);
+                    push_opt(&mut o, guard(|| evaluate::five_cards(a5(&v[1..]))));
+                },
                 6 => vals(&Six::from(a6(&v[1..])), &mut o),
                 7 => vals(&Seven::from(a7(&v[1..])), &mut o),
                 _ => panic!("bad size"),
@@ -466,24 +469,111 @@ pub fn exec(lineno: usize, l: &str) -> String {
         "vrank" => {
             let v = nums();
             let n = v[0] as usize;
-            fn vv<H: HandRanker + HandValidator>(h: &H, o: &mut String) {
+            // valid? | validated value is 0? | hand_rank_validated carries the validated value? |
+            // (valid hands only) validated value == unvalidated value?
+            fn vv<H: HandRanker + HandValidator>(h: &H, o: &mut String) -> Option<u16> {
                 let valid = guard(|| h.is_valid());
                 push_opt(o, valid.map(b));
-                push_opt(o, guard(|| h.hand_rank_value_validated()));
-                push_opt(o, guard(|| hr_str(&h.hand_rank_validated())));
+                let val = guard(|| h.hand_rank_value_validated());
+                push_opt(o, val.map(|x| b(x == 0)));
+                push_opt(o, guard(|| b(Some(h.hand_rank_validated().value) == val)));
                 if valid == Some(true) {
-                    push_opt(o, guard(|| h.hand_rank_value()));
+                    push_opt(o, guard(|| b(Some(h.hand_rank_value()) == val)));
                 }
+                val
             }
             match n {
                 5 => {
-                    vv(&Five::from(a5(&v[1..])), &mut o);
-                    push_opt(&mut o, guard(|| evaluate::five_cards(a5(&v[1..]))));
+                    let val = vv(&Five::from(a5(&v[1..])), &mut o);
+                    push_opt(&mut o, guard(|| b(Some(evaluate::five_cards(a5(&v[1..]))) == val)));
                 },
-                6 => vv(&Six::from(a6(&v[1..])), &mut o),
-                7 => vv(&Seven::from(a7(&v[1..])), &mut o),
+                6 => {
+                    vv(&Six::from(a6(&v[1..])), &mut o);
+                },
+                7 => {
+                    vv(&Seven::from(a7(&v[1..])), &mut o);
+                },
                 _ => panic!("bad size"),
             }
+        },
+        // projection for C03: is the reported hand a sorted witness? (for five: is it the input?)
+        "wit" => {
+            let v = nums();
+            let n = v[0] as usize;
+            let input: Vec<u32> = v[1..].iter().map(|x| *x as u32).collect();
+            let r = match n {
+                5 => guard(|| Five::from(a5(&v[1..])).hand_rank_value_and_hand()),
+                6 => guard(|| Six::from(a6(&v[1..])).hand_rank_value_and_hand()),
+                7 => guard(|| Seven::from(a7(&v[1..])).hand_rank_value_and_hand()),
+                _ => panic!("bad size"),
+            };
+            match r {
+                None => o.push_str("P"),
+                Some((val, hand)) => {
+                    let h = hand.to_arr();
+                    if n == 5 {
+                        let _ = write!(o, "{}", b(h.to_vec() == input));
+                    } else {
+                        let from_input = h.iter().all(|c| input.contains(c));
+                        let distinct = (0..5).all(|i| (i + 1..5).all(|j| h[i] != h[j]));
+                        let desc = h.windows(2).all(|w| w[0] >= w[1]);
+                        let re = guard(|| hand.hand_rank_value());
+                        let _ = write!(o, "{} {} {} {}", b(from_input), b(distinct), b(desc), b(re == Some(val)));
+                    }
+                },
+            }
+        },
+        // projection for C08: is the value unchanged by one, two and three suit shifts?
+        "shiftinv" => {
+            let v = nums();
+            let n = v[0] as usize;
+            macro_rules! inv {
+                ($h:expr) => {{
+                    let h0 = $h;
+                    let v0 = guard(|| h0.hand_rank_value());
+                    let h1 = h0.shift_suit();
+                    let h2 = h1.shift_suit();
+                    let h3 = h2.shift_suit();
+                    for h in [h1, h2, h3] {
+                        push_opt(&mut o, guard(|| b(Some(h.hand_rank_value()) == v0)));
+                    }
+                    push_opt(&mut o, Some(b(h3.shift_suit().to_arr() == h0.to_arr())));
+                }};
+            }
+            match n {
+                5 => inv!(Five::from(a5(&v[1..]))),
+                6 => inv!(Six::from(a6(&v[1..]))),
+                7 => inv!(Seven::from(a7(&v[1..]))),
+                _ => panic!("bad size"),
+            }
+        },
+        // projection for C09: seven <= every six-subset <= every five-subset, and the minima are attained
+        "chain7" => {
+            let v = nums();
+            let ws: Vec<u32> = v.iter().map(|x| *x as u32).collect();
+            let r = guard(|| {
+                let v7 = Seven::from(a7(&v)).hand_rank_value();
+                let mut ok76 = true;
+                let mut ok65 = true;
+                let mut min6 = u16::MAX;
+                let mut min_ok = true;
+                for skip in 0..7 {
+                    let six: Vec<u64> = (0..7).filter(|i| *i != skip).map(|i| u64::from(ws[i])).collect();
+                    let v6 = Six::from(a6(&six)).hand_rank_value();
+                    ok76 &= v7 <= v6;
+                    min6 = min6.min(v6);
+                    let mut min5 = u16::MAX;
+                    for skip5 in 0..6 {
+                        let five: Vec<u64> = (0..6).filter(|i| *i != skip5).map(|i| six[i]).collect();
+                        let v5 = Five::from(a5(&five)).hand_rank_value();
+                        ok65 &= v6 <= v5;
+                        min5 = min5.min(v5);
+                    }
+                    min_ok &= min5 == v6;
+                }
+                format!("{} {} {} {}", b(ok76), b(v7 == min6), b(ok65), b(min_ok))
+            });
+            push_opt(&mut o, r);
         },
         // projection for C05: for every ranking entry point only "returned normally?"; for a
         // five-slot hand that contains a blank also the value / name / class it was given
